@@ -711,6 +711,10 @@ func getSegStore(streamid string) *SegStore {
 }
 
 func createSegStore(streamid string, table string, orgId int64) (*SegStore, error) {
+	if !utils.IsValidIndexName(table) {
+		return nil, fmt.Errorf("createSegStore: invalid index name: %q", table)
+	}
+
 	allSegStoresLock.Lock()
 	defer allSegStoresLock.Unlock()
 
@@ -1073,6 +1077,11 @@ func getActiveBaseDirVTable(virtualTableName string) string {
 }
 
 func DeleteVirtualTableSegStore(virtualTableName string) {
+	if !utils.IsValidIndexName(virtualTableName) {
+		log.Errorf("DeleteVirtualTableSegStore: invalid index name: %q", virtualTableName)
+		return
+	}
+
 	allSegStoresLock.Lock()
 	for streamid, segstore := range allSegStores {
 		if segstore.VirtualTableName == virtualTableName {
